@@ -16,7 +16,7 @@ if [ "${MUT_BUILD:-1}" = 1 ]; then
   (cd "$D/repo" && go build ./... ) >/dev/null 2>"$D/build.err" || { echo "mutant does not compile: $P"; head -5 "$D/build.err"; exit 2; }
 fi
 for prop in "$@"; do
-  out=$(VOI_REPO="$D/repo" VOI_VERIF="$D/verif" /verif/bin/voicheck check "$prop" quick 2>&1)
+  out=$(VOI_REPO="$D/repo" VOI_VERIF="$D/verif" /verif/check "$prop" quick 2>&1)
   if echo "$out" | grep -q "^VIOLATION property=$prop"; then
     echo "$prop DETECTED: $(echo "$out" | grep -B1 '^VIOLATION' | grep -v '^VIOLATION' | grep -v '^--' | head -${MUT_LINES:-2} | cut -c1-260)"
   else
